@@ -1,11 +1,11 @@
 (* C06 -- JSON Schema normalisation preserves acceptance.
-   End-to-end theorems (C06_fragment, C06_fragment_default, C06_fragment_exec): for every schema of the propositional-scalar fragment -- type, enum, the numeric /
-   length / item-count bounds, the normaliser's negated enum, combined by allOf, anyOf and not to any depth -- the any-of list
-   that the model of normalize() returns is satisfied by exactly the instances the schema accepts.  Outside the fragment
-   (properties, items, $ref, oneOf, if/then/else, const, multipleOf, "integer") the statement is decided by the validator
+   End-to-end theorems (C06_fragment, C06_fragment_default, C06_fragment_exec): for every schema of the propositional-scalar fragment -- type, enum, const,
+   the numeric / length / item-count bounds, the normaliser's negated enum, combined by allOf, anyOf, oneOf, not and
+   if / then / else to any depth -- the any-of list that the model of normalize() returns is satisfied by exactly the
+   instances the schema accepts.  Outside the fragment (properties, items, $ref, multipleOf, "integer") the statement is decided by the validator
    oracle and the model/implementation correspondence; the keyword-level laws below cover the places where defects were
    found and repaired. *)
-From Fences Require Import Normalize NormShape JsonValid JsonFragB JsonSem JsonSemDnf JsonSemNorm JsonSemTop JsonSemBool.
+From Fences Require Import Normalize NormShape JsonValid JsonFragB JsonSem JsonSemAlts JsonSemDnf JsonSemNorm JsonSemTop JsonSemBool.
 From Coq Require Import String ZArith.
 Local Open Scope list_scope.
 
@@ -101,16 +101,31 @@ Theorem C06_invert : forall cfg l n, full_merge cfg = true -> Forall galt l -> i
 Proof. exact invert_sem. Qed.
 Print Assumptions C06_invert.
 
-(* _to_dnf, for every recursion budget f and nesting depth m *)
-Theorem C06_to_dnf_fragment : forall SV cfg, full_merge cfg = true ->
+(* _to_dnf, for every recursion budget f and nesting depth m (the repaired handling of a lone `if`) *)
+Theorem C06_to_dnf_fragment : forall SV cfg, fix_lone_if SV = true -> full_merge cfg = true ->
   (forall k, In k (SK ++ CK) -> smem k (discard_fields cfg) = false) ->
   forall f m s n, frag m s -> to_dnf SV cfg f s = Ok n ->
   exists l, n = dnf_of l /\ Forall galt l /\ forall x, alts_valid l x <-> sem m x s.
-Proof. intros SV cfg FM DF f m s n Fs. exact (to_dnf_sem SV cfg FM DF f m s Fs n). Qed.
+Proof. intros SV cfg FL FM DF f m s n Fs. exact (to_dnf_sem SV cfg FL FM DF f m s Fs n). Qed.
 Print Assumptions C06_to_dnf_fragment.
 
+(* the three rewritings in front of the combinators, each an equivalence of dicts of the fragment: const folded into
+   enum, the conditional turned into allOf / anyOf / not (decidability of acceptance is what makes this an
+   equivalence), the type list respelled *)
+Theorem C06_simplifications : forall SV m d, frag (S m) (JObj d) -> fix_lone_if SV = true ->
+  (exists dc, simplify_const d = Ok dc /\ equiv m d m dc) /\
+  (exists m', equiv m d m' (simplify_ite SV d)) /\
+  (exists d3, simplify_type d = Ok d3 /\ equiv m d m d3).
+Proof.
+  intros SV m d F FL. split; [|split].
+  - destruct (const_equiv m d F) as (dc & E & _ & Q & _). eauto.
+  - destruct (ite_equiv SV m d F FL) as (m' & Q & _). eauto.
+  - destruct (type_equiv m d F) as (d3 & E & Q & _). eauto.
+Qed.
+Print Assumptions C06_simplifications.
+
 (* normalize(): full merge, no duplicate detection, no keyword of the fragment among the discarded ones *)
-Theorem C06_fragment : forall SV cfg, full_merge cfg = true -> detect_dup cfg = false ->
+Theorem C06_fragment : forall SV cfg, fix_lone_if SV = true -> full_merge cfg = true -> detect_dup cfg = false ->
   (forall k, In k (SK ++ CK) -> smem k (discard_fields cfg) = false) ->
   forall fuel m d n, frag m (JObj d) -> normalize SV cfg fuel (JObj d) = Ok n ->
   exists L, any_of n = Ok (map JObj L) /\ Forall galt L /\ forall x, alts_valid L x <-> sem m x (JObj d).
@@ -118,11 +133,21 @@ Proof. exact normalize_fragment. Qed.
 Print Assumptions C06_fragment.
 
 (* ... in particular the default configuration *)
-Theorem C06_fragment_default : forall SV fuel m d n, frag m (JObj d) ->
+Theorem C06_fragment_default : forall SV fuel m d n, fix_lone_if SV = true -> frag m (JObj d) ->
   normalize SV (mkNConfig true default_discard false) fuel (JObj d) = Ok n ->
   exists L, any_of n = Ok (map JObj L) /\ Forall galt L /\ forall x, alts_valid L x <-> sem m x (JObj d).
 Proof. exact normalize_fragment_default. Qed.
 Print Assumptions C06_fragment_default.
+
+(* The pinned code dropped every sibling keyword of a lone `if` (variant fix_lone_if = false): {"if": {}, "type": "null"}
+   normalised to the schema that accepts everything *)
+Theorem C06_lone_if_refuted_pinned :
+  exists n, normalize (mkSV false) (mkNConfig true default_discard false) 20
+              (JObj [(kw "if", JObj []); (kw "type", jstr "null")]) = Ok n /\
+            any_of n = Ok [JObj []] /\
+            semb 3 (JNum 1) (JObj [(kw "if", JObj []); (kw "type", jstr "null")]) = false.
+Proof. eexists. split; [vm_compute; reflexivity|]. split; vm_compute; reflexivity. Qed.
+Print Assumptions C06_lone_if_refuted_pinned.
 
 (* The specification is executable: fragb decides membership in the fragment (soundly), semb evaluates acceptance;
    both are extracted, and the C06 check compares semb with the reference validator on random documents of the
@@ -131,22 +156,24 @@ Theorem C06_spec_executable : forall f s, fragb f s = true -> frag f s /\ forall
 Proof. intros f s H. pose proof (fragb_sound f s H) as F. split; [exact F|]. intros x. exact (semb_spec x f s F). Qed.
 Print Assumptions C06_spec_executable.
 
-Theorem C06_fragment_exec : forall SV fuel m d n, fragb m (JObj d) = true ->
+Theorem C06_fragment_exec : forall SV fuel m d n, fix_lone_if SV = true -> fragb m (JObj d) = true ->
   normalize SV (mkNConfig true default_discard false) fuel (JObj d) = Ok n ->
   exists L, any_of n = Ok (map JObj L) /\ forall x, alts_valid L x <-> semb m x (JObj d) = true.
 Proof. exact normalize_fragment_exec. Qed.
 Print Assumptions C06_fragment_exec.
 
-(* non-vacuity: {"type": ["number","string"], "minimum": 3, "anyOf": [{"maxLength": 2}, {"minimum": 10}], "not": {"enum": [5]}}
-   is in the fragment, normalize() returns, 12 is accepted, 5 and null are not *)
+(* non-vacuity: {"type": ["number","string"], "minimum": 3, "oneOf": [{"maxLength": 2}, {"minimum": 10}],
+   "if": {"const": 7}, "then": {"enum": [7, 8]}, "else": {"not": {"enum": [5]}}} is in the fragment, normalize() returns,
+   12 and 7 are accepted, 5 and null are not *)
 Definition c06_doc : json :=
   JObj [(kw "type", JArr [jstr "number"; jstr "string"]); (kw "minimum", JNum 3);
-        (kw "anyOf", JArr [JObj [(kw "maxLength", JNum 2)]; JObj [(kw "minimum", JNum 10)]]);
-        (kw "not", JObj [(kw "enum", JArr [JNum 5])])].
+        (kw "oneOf", JArr [JObj [(kw "maxLength", JNum 2)]; JObj [(kw "minimum", JNum 10)]]);
+        (kw "if", JObj [(kw "const", JNum 7)]); (kw "then", JObj [(kw "enum", JArr [JNum 7; JNum 8])]);
+        (kw "else", JObj [(kw "not", JObj [(kw "enum", JArr [JNum 5])])])].
 Example C06_nonvacuous :
-  fragb 3 c06_doc = true /\
+  fragb 4 c06_doc = true /\
   (exists n, normalize (mkSV true) (mkNConfig true default_discard false) 30 c06_doc = Ok n) /\
-  semb 3 (JNum 12) c06_doc = true /\ semb 3 (JNum 5) c06_doc = false /\ semb 3 JNull c06_doc = false.
+  semb 4 (JNum 7) c06_doc = true /\ semb 4 (JNum 5) c06_doc = false /\ semb 4 JNull c06_doc = false.
 Proof.
   split; [vm_compute; reflexivity|]. split; [eexists; vm_compute; reflexivity|].
   split; [vm_compute; reflexivity|]. split; vm_compute; reflexivity.
